@@ -23,17 +23,18 @@ LAT_Q = [0.0, 0.25, 0.5, 0.75, 1.0]
 LAT_T = [0.0, 0.125, 0.25, 0.5, 0.75, 1.0]
 SLOPE_CYCLE = [-10.0, 0.0, 25.0]
 INS_B = [0.0, 0.1, 0.25, 0.5, 0.75, 1.0, 1.2]          # equal-first, between, equal, equal-last, above-last
+NEG_B = -0.2                                         # below every breakpoint (lists start at 0)
 INS_S = [-3.0, 0.0, 40.0]                            # a flat (zero-slope) segment is a legitimate slope
 TEMPS = [300.0, 1000.0]
 
-PLANNED_TAGS = ['insert:below-first-interior', 'insert:between', 'insert:equal', 'insert:equal-last',
+PLANNED_TAGS = ['insert:below-every-breakpoint', 'insert:below-first-interior', 'insert:between', 'insert:equal', 'insert:equal-last',
                 'insert:above-last', 'pop:interior', 'pop:last', 'pop:0-refused', 'reload:dict',
                 'reload:json', 'slopes:int-typed', 'construct:shared-lists']
 
 
 def bounds(tier):
     return dict(init_breakpoints='1-3 of %s' % LAT_Q if tier == 'quick' else '1-6 of %s' % LAT_T,
-                insert_breakpoints=INS_B, insert_slopes=INS_S,
+                insert_breakpoints=INS_B, insert_slopes=INS_S, insert_below_every_breakpoint='(%s, 40.0), at most once per history' % NEG_B,
                 depth='3 from initial lists of <= 2 breakpoints, 2 from longer ones' if tier == 'quick' else '4 (5 from initial lists of <= 2 breakpoints)', temperatures=TEMPS)
 
 
@@ -99,12 +100,36 @@ def _build(init):
                               slopes=list(init['slopes']), name='lat1')
 
 
+ROUTE_UNITS = ['kcal/mol', 'kJ/mol', 'eV']
+_ROUTES_SEEN = set()
+_BARE = {}
+
+
+def _carrier(model):
+    """A surface NASA species with a small fixed polynomial carrying `model` (or nothing)."""
+    from pmutt.empirical.nasa import Nasa
+    a = np.array([2.5, 1e-3, 0.0, 0.0, 0.0, -100.0, 3.0])
+    return Nasa(name='A(S)', T_low=100., T_mid=2000., T_high=6000., a_low=a.copy(), a_high=a.copy(),
+                phase='S', misc_models=None if model is None else [model])
+
+
+def _accepted(ctx, clause, sig, case, fn):
+    """A documented call form that is refused with a TypeError is a violation, not a harness error."""
+    try:
+        return fn()
+    except TypeError as e:
+        ctx.fail(clause, sig, case, 'TypeError: %s' % e, 'accepted')
+        return None
+
+
 def _pairs(obj):
     return sorted(zip([float(v) for v in obj.intervals], [float(v) for v in obj.slopes]))
 
 
 def _where(intervals, b):
     last = intervals[-1]
+    if b < intervals[0]:
+        return 'below-every-breakpoint'
     if b > last:
         return 'above-last'
     if b == last:
@@ -205,12 +230,14 @@ def check_state(obj, ctx, sig, case):
     ok = ctx.true('len(intervals)==len(slopes)', len(iv) == len(sl), sig, case, (len(iv), len(sl)))
     ok &= ctx.true('breakpoints ascending', all(a <= b for a, b in zip(iv, iv[1:])), sig, case, iv,
                    'ascending')
-    ok &= ctx.true('first breakpoint is 0', iv[0] == 0.0, sig, case, iv[0], 0.0)
+    # lists start at 0; only an insertion below every breakpoint (exact pairs are compared after every edit) moves it
+    ok &= ctx.true('the first breakpoint is not above zero coverage', iv[0] <= 0.0, sig, case, iv[0], 0.0)
     if not ok:
         return False
     xs = set(iv) | {0.0, 1.0, iv[-1] + 0.35}
     xs |= {0.5 * (a + b) for a, b in zip(iv, iv[1:])}
     xs |= {np.nextafter(b, -1.0) for b in iv if b > 0} | {np.nextafter(b, 2.0) for b in iv}
+    xs = {x for x in xs if x >= 0.0}          # a coverage is not negative
     R = c.R('kcal/mol/K')
     for x in sorted(xs):
         x = float(x)
@@ -229,6 +256,53 @@ def check_state(obj, ctx, sig, case):
                             atol=1e-12)
         ok &= ctx.close('independent of temperature in energy units', vals[0], vals[1], sig, case,
                         rtol=1e-10, atol=1e-9, scale=abs(exp) + 50.0)
+    # every other public route to the same number, at three coverages per state (inside the first segment
+    # with a non-zero slope, on the last breakpoint + beyond it): positional arguments, the inherited
+    # dimensional getters (which forward their arguments by introspection) and a surface species carrying
+    # the model
+    ups = [iv[k + 1] if k + 1 < len(iv) else iv[k] + 0.3 for k in range(len(iv))]
+    nz = [k for k, v in enumerate(sl) if v != 0.0 and ups[k] > 0.0]
+    k0 = nz[0] if nz else len(iv) - 1
+    xr = sorted({0.5 * (max(iv[k0], 0.0) + max(ups[k0], 0.1)), max(iv[-1], 0.0), max(iv[-1], 0.0) + 0.35})
+    # once per distinct (breakpoints, slopes) and process: the routes only forward to the getters judged above
+    key = (tuple(iv), tuple(sl), tuple(type(v).__name__ for v in obj.slopes))
+    if key in _ROUTES_SEEN:
+        xr = []
+    else:
+        _ROUTES_SEEN.add(key)
+        sp = _carrier(obj)
+        if 'bare' not in _BARE:
+            _BARE['bare'] = _carrier(None)
+        bare = _BARE['bare']
+    for x in xr:
+        x = float(x)
+        exp = f_ref(iv, sl, x)
+        for T in TEMPS:
+            pos = _accepted(ctx, 'positional call get_XoRT(x, T) is accepted', sig, case, lambda: [
+                obj.get_UoRT(x, T) * R * T, obj.get_HoRT(x, T) * R * T,
+                obj.get_FoRT(x, T) * R * T, obj.get_GoRT(x, T) * R * T])
+            if pos is None:
+                return False
+            ok &= ctx.close('positional call get_XoRT(x, T) = keyword call', pos, [exp] * 4, sig, case,
+                            rtol=1e-10, atol=1e-9, scale=abs(exp) + 50.0)
+            for units in ROUTE_UNITS:
+                k = c.R(units + '/K') / R
+                dim = _accepted(ctx, 'dimensional getter get_X(units, x, T) is accepted', sig, case, lambda: [
+                    obj.get_U(units, x=x, T=T), obj.get_H(units, x=x, T=T),
+                    obj.get_F(units, x=x, T=T), obj.get_G(units, x=x, T=T)])
+                if dim is None:
+                    return False
+                ok &= ctx.close('dimensional getter get_X(units, x, T) = piecewise-linear reference in that unit',
+                                dim, [exp * k] * 4, sig, case, rtol=1e-10, atol=1e-9 * k,
+                                scale=(abs(exp) + 50.0) * k)
+            ok &= ctx.true('get_S(units) = 0', obj.get_S('kcal/mol/K') == 0.0, sig, case, None, 0.0)
+            got = [(sp.get_HoRT(T=T, x=x) - bare.get_HoRT(T=T)) * R * T,
+                   (sp.get_GoRT(T=T, x=x) - bare.get_GoRT(T=T)) * R * T,
+                   (sp.get_H(T=T, units='kcal/mol', x=x) - bare.get_H(T=T, units='kcal/mol')),
+                   (sp.get_SoR(T=T, x=x) - bare.get_SoR(T=T)) * R * T + exp]
+            ctx.evals(24)
+            ok &= ctx.close('a surface species carrying the model reports polynomial + the same energy',
+                            got, [exp] * 4, sig, case, rtol=1e-9, atol=1e-7, scale=abs(exp) + 50.0)
     zero = (obj.get_SoR(), obj.get_CvoR(), obj.get_CpoR())
     ok &= ctx.true('S = Cv = Cp = 0', zero == (0.0, 0.0, 0.0), sig, case, None, (0.0, 0.0, 0.0))
     # (5) one-sided limits at each breakpoint agree (continuity), measured on the implementation
@@ -246,6 +320,9 @@ def check_state(obj, ctx, sig, case):
 def _ops_for(obj, ints=False):
     n = len(obj.intervals)
     ops = [['insert', b, s] for b in INS_B for s in (INT_INS_S if ints else INS_S)]
+    if min(float(v) for v in obj.intervals) >= 0.0:
+        # "insertions below ... existing breakpoints": one breakpoint below the whole list per history
+        ops += [['insert', NEG_B, 40 if ints else 40.0]]
     ops += [['pop', i] for i in range(0, n)]
     ops += [['dict'], ['json']]
     return ops
